@@ -32,7 +32,8 @@ circuits   LAUNCHED -> EXTENDED* -> [GUARD_WAIT] -> BUILT -> CLOSED, or FAILED f
            Keywords in Tor's order: BUILD_FLAGS (omitted when empty) PURPOSE HS_STATE REND_QUERY
            TIME_CREATED REASON REMOTE_REASON.  LAUNCHED carries no path; every later status
            carries the path; hops are LongNames ``$fp~nick`` / ``$fp=nick`` / ``$fp``; some
-           relays are absent from the consensus served by ``ns/all``.
+           relays are absent from the consensus served by ``ns/all``, and some of those carry the
+           nickname of a relay that is in it (nicknames are not unique).
 streams    NEW | NEWRESOLVE -> [CONTROLLER_WAIT] -> (REMAP 0 .. SOURCE=CACHE)* ->
            SENTCONNECT | SENTRESOLVE on a BUILT circuit -> (REMAP circ .. SOURCE=EXIT)? ->
            SUCCEEDED (connect streams only) -> CLOSED; FAILED before success; DETACHED
@@ -115,7 +116,8 @@ class Relay(object):
 
 
 def default_relays():
-    """8 relays in the consensus (two share a nickname, two are guards) + 3 that are not"""
+    """8 relays in the consensus (two share a nickname, two are guards) + 6 that are not (three of
+    them carry the nickname of a consensus relay)"""
     return [
         Relay("alpha", "10.0.0.1", ["Fast", "Guard", "Running", "Stable", "Valid"], 1200),
         Relay("bravo", "10.0.0.2", ["Exit", "Fast", "Running", "Valid"], 800),
@@ -128,6 +130,11 @@ def default_relays():
         Relay("ghost", "10.9.0.1", [], 0, in_consensus=False),
         Relay("bridge7", "10.9.0.2", [], 0, in_consensus=False),
         Relay("rendpoint", "10.9.0.3", [], 0, in_consensus=False),
+        # nicknames are not unique in Tor: relays outside the consensus (bridges, relays that dropped out)
+        # that carry the nickname of a consensus relay - a unique one, a duplicated one, one differing in case
+        Relay("alpha", "10.9.0.4", [], 0, in_consensus=False),
+        Relay("Unnamed", "10.9.0.5", [], 0, in_consensus=False),
+        Relay("FOXTROT", "10.9.0.6", [], 0, in_consensus=False),
     ]
 
 
@@ -366,6 +373,11 @@ class TorSim(object):
     # ---- rendering -------------------------------------------------------
     def path_text(self, c):
         return ",".join(self.relays[i].longname(st) for i, st in c.path)
+
+    def nick_collides(self, idx):
+        """relay idx is outside the consensus but a consensus relay has the same nickname (any case)"""
+        r = self.relays[idx]
+        return (not r.in_consensus) and any(o.in_consensus and o.nick.lower() == r.nick.lower() for o in self.relays)
 
     def path_ids(self, c):
         return [self.relays[i].id_hex for i, _ in c.path]
@@ -794,8 +806,11 @@ class TorSim(object):
             if act.get("flags") is not None and c.build_flags:
                 c.build_flags = list(act["flags"]) or c.build_flags
         c.path.append((act["hop"][0], act["hop"][1]))
-        if not self.relays[act["hop"][0]].in_consensus:
+        hop = self.relays[act["hop"][0]]
+        if not hop.in_consensus:
             self._count("hop_not_in_consensus")
+            if act["hop"][1] != "bare" and self.nick_collides(act["hop"][0]):
+                self._count("hop_outside_consensus_named_like_consensus_relay")
         c.status = "EXTENDED"
         ev = self._circ_event(c, "EXTENDED")
         if self.reporting:
